@@ -135,7 +135,7 @@ func (Engine) Shrink(sci interface{}) []interface{} {
 
 func (Engine) Describe() harness.EngineInfo {
 	return harness.EngineInfo{
-		Rule:        "scenario = 1-5 generated source modules in one or two sys.path directories of a virtual file system (optionally one shadowed copy), each body a straight-line list of exec-log, bindings (public, _private, optional __all__), import statements in all five forms (import m / import m as n / from m import a / from m import a as b / from m import *) of other modules (chains, diamonds, cycles), mutations of other modules and reads; the main program performs first and repeated imports in seeded order and form, identity checks, mutations, imports of Go modules, rebinding / deletion / reading of attributes of the Go module math through the module object and from-import, star imports executed with a fresh empty dict as locals; faults: ENOENT (missing module, main or nested, wrapped or escaping), missing names, and in 20% of runs EIO on stat/read, torn source or a file vanishing between stat and read; an 'after' program then uses the same context; 25% of runs use two contexts on the same file system interleaved by the scheduler. distinct = distinct (module files, main program) text; non-trivial = at least two import statements naming the same module",
+		Rule:        "scenario = 1-5 generated source modules in one or two sys.path directories of a virtual file system (optionally one shadowed copy), each body a straight-line list of exec-log, bindings (public, _private, optional __all__), import statements in all five forms (import m / import m as n / from m import a / from m import a as b / from m import *) of other modules (chains, diamonds, cycles), mutations of other modules and reads; the main program performs first and repeated imports in seeded order and form, identity checks, mutations, imports of Go modules, rebinding / deletion / reading of attributes of the Go module math through the module object and from-import, star imports executed with a fresh empty dict as locals; faults: ENOENT (missing module, main or nested, wrapped or escaping), missing names, and in 20% of runs EIO on stat/read, torn source or a file vanishing between stat and read; an 'after' program then uses the same context; 25% of runs use two contexts on the same file system interleaved by the scheduler. distinct = distinct (module files, main program) text; non-trivial = at least two import statements naming the same module; modules reach the running program through 'import __main__' (read its marker, write into its namespace); 1 in 3 scenarios run the main program as a script (code of a new __main__ module via py.RunCode); 1 in 4 scenarios put decoy directory entries next to a module's source file (a directory of that name without __init__.py, a file of that name without extension)",
 		Real:        []string{"py.ImportModuleLevelObject / BuiltinImport", "stdlib.context.ResolveAndCompile + ModuleInit", "py.ModuleStore", "vm IMPORT_NAME / IMPORT_FROM / IMPORT_STAR", "compile"},
 		Stubbed:     []string{"os.Stat/ReadFile/Open/Getwd in the resolver -> simfs (in-memory tree with per-path fault plans)", "reference semantics -> CPython 3.11 importing the same files from a private temporary directory", "goroutine interleaving of two contexts -> simulator", "Go map iteration order -> simulator"},
 		Assumptions: []string{"dotted names / packages are outside the fragment", "module bodies wrap failing imports in try/except (CPython re-executes a module whose body raised; the property states nothing for that case)", "for EIO / torn / vanishing files only no-panic, exec-at-most-once and context-still-usable are judged (the property states an outcome only for missing modules and names)", "ModuleNotFoundError is folded into ImportError"},
